@@ -30,7 +30,8 @@ Section FrontProofs.
     sk_twin : s_twin s = true -> exists m, In m ms0 /\ feq (key ind) (key m) = true;
     sk_rest : s_dominated s = false -> s_twin s = false ->
       forall j m, npre <= j -> nth_error ms0 j = Some m -> ~ In j (s_remove s) ->
-        domi ind m = false /\ (domi m ind = false \/ exists m1, In m1 ms0 /\ domi ind m1 = true) }.
+        domi ind m = false /\ (domi m ind = false \/ exists m1, In m1 ms0 /\ domi ind m1 = true) /\
+        (feq (key ind) (key m) && sim ind m) = false }.
 
   Lemma scan_spec ind ms0 : forall ms pre dom_one tr,
     ms0 = pre ++ ms ->
@@ -102,7 +103,7 @@ Section FrontProofs.
              destruct OK as [O1 O2 O3 O4 O5 O6 O7]. constructor; try assumption.
              intros Hd Ht j x Hj N Nin.
              destruct (Nat.eq_dec j (length pre)) as [->|Ne].
-             ++ rewrite Em in N. injection N as <-. split; [exact C2|].
+             ++ rewrite Em in N. injection N as <-. split; [exact C2|]. split; [|exact C3].
                 destruct dom_one.
                 ** right. apply D1. reflexivity.
                 ** left. simpl in C1. exact C1.
@@ -258,7 +259,8 @@ Section FrontInvariant.
     (exists ds, let a1 := prune_desc K I a ds in
        desc_ok (size a) ds /\ mirror a1 /\
        (forall x, In x (items a) -> In x (items a1) \/ domi ind x = true) /\
-       (forall x, In x (items a1) -> domi ind x = false /\ domi x ind = false) /\
+       (forall x, In x (items a1) -> domi ind x = false /\ domi x ind = false /\
+                                     (feq (key ind) (key x) && sim ind x) = false) /\
        pstep a ind = final (ins a1 ind) /\ pevicts a ind = over_capacity cap (ins a1 ind)).
   Proof.
     intros Hnd M Uit Uind.
@@ -302,11 +304,14 @@ Section FrontInvariant.
           apply (O7 eq_refl eq_refl j x (Nat.le_0_l _) N Nin).
         * destruct (prune_desc_only K I _ a x (proj1 D) H) as (j & N & Nin).
           rewrite <- in_rev in Nin.
-          destruct (O7 eq_refl eq_refl j x (Nat.le_0_l _) N Nin) as [_ [Dx|(m1 & Hm1 & D1)]]; [exact Dx|].
+          destruct (O7 eq_refl eq_refl j x (Nat.le_0_l _) N Nin) as [_ [[Dx|(m1 & Hm1 & D1)] _]]; [exact Dx|].
           destruct (domi x ind) eqn:Dx; [|reflexivity]. exfalso.
           apply nth_error_In in N.
           assert (domi x m1 = true) by (apply (dom_trans _ (key ind)); auto).
           rewrite (Hnd x m1 N Hm1) in H0. discriminate.
+        * destruct (prune_desc_only K I _ a x (proj1 D) H) as (j & N & Nin).
+          rewrite <- in_rev in Nin.
+          apply (O7 eq_refl eq_refl j x (Nat.le_0_l _) N Nin).
         * unfold final. destruct (over_capacity cap (ins a1 ind)) eqn:Ov; [|reflexivity].
           apply arch_remove_last. rewrite arch_insert_size. lia.
   Qed.
@@ -646,6 +651,123 @@ Section FrontSorted.
   Qed.
 End FrontSorted.
 
+(* ====================== one member per uid; few individuals, no eviction ====================== *)
+Lemma NoDup_del_at {A} (l : list A) i : NoDup l -> NoDup (del_at i l).
+Proof.
+  intros H. destruct (nth_error l i) eqn:E.
+  - apply (Permutation_NoDup (del_at_perm l i a E)) in H. inversion H; assumption.
+  - apply nth_error_None in E. unfold del_at. rewrite firstn_all2, skipn_all2 by lia.
+    rewrite app_nil_r. exact H.
+Qed.
+
+Section FrontUids.
+  Variables K I : Type.
+  Variable key : I -> K.
+  Variable worse : K -> K -> bool.
+  Variables dom feq : K -> K -> bool.
+  Variable sim : I -> I -> bool.
+  Variable uidf : I -> nat.
+  Variable UK : K -> Prop.
+  Hypothesis dom_irrefl : forall a, UK a -> dom a a = false.
+  Hypothesis dom_trans : forall a b c, UK a -> UK b -> UK c ->
+    dom a b = true -> dom b c = true -> dom a c = true.
+  Hypothesis feq_refl : forall a, UK a -> feq a a = true.
+  Hypothesis dom_compat_l : forall a a' c, UK a -> UK a' -> UK c ->
+    feq a a' = true -> dom a c = true -> dom a' c = true.
+  Hypothesis sim_refl : forall x, UK (key x) -> sim x x = true.
+  Variable cap : nat.
+
+  Notation arch := (arch K I).
+  Notation ins := (arch_insert key worse).
+  Notation pstep := (pf_step key worse dom feq sim cap).
+  Notation pevicts := (pf_step_evicts key worse dom feq sim cap).
+  Notation PInv := (PInv K I key dom cap).
+  Notation useen := (useen K I key UK).
+  Notation final := (final K I cap).
+
+  (* one individual per uid among everything shown *)
+  Definition uid_inj (seen : list I) : Prop :=
+    forall s t, In s seen -> In t seen -> uidf s = uidf t -> s = t.
+
+  Definition distinct (seen : list I) : nat := length (nodup Nat.eq_dec (map uidf seen)).
+
+  Lemma distinct_mono s1 s2 : incl s1 s2 -> distinct s1 <= distinct s2.
+  Proof.
+    intros Inc. unfold distinct. apply NoDup_incl_length; [apply NoDup_nodup|].
+    intros u Hu. apply nodup_In. apply nodup_In in Hu. apply in_map_iff in Hu.
+    destruct Hu as (x & <- & Hx). apply in_map, Inc, Hx.
+  Qed.
+
+  Lemma prune_desc_nodup ds : forall a,
+    NoDup (map uidf (items a)) -> NoDup (map uidf (items (prune_desc K I a ds))).
+  Proof.
+    induction ds as [|d ds IH]; intros a H; simpl; [exact H|].
+    apply IH. unfold HofProofs.remove_nat. simpl. rewrite map_del_at. apply NoDup_del_at, H.
+  Qed.
+
+  Lemma final_nodup a2 : NoDup (map uidf (items a2)) -> NoDup (map uidf (items (final a2))).
+  Proof.
+    intros H. unfold ParetoProofs.final. destruct (over_capacity cap a2); [|exact H].
+    unfold HofProofs.remove_nat. simpl. rewrite map_del_at. apply NoDup_del_at, H.
+  Qed.
+
+  (* inserting: the newcomer's uid is not archived *)
+  Lemma uid_step_aux seen a ind :
+    useen (seen ++ [ind]) -> uid_inj (seen ++ [ind]) -> PInv seen a -> NoDup (map uidf (items a)) ->
+    NoDup (map uidf (items (pstep a ind))) /\
+    (pevicts a ind = true -> cap < distinct (seen ++ [ind])).
+  Proof.
+    intros Us Ui [M Hnd Inc Hcap] Nd.
+    assert (Uind : UK (key ind)) by (apply Us; apply in_or_app; right; left; reflexivity).
+    assert (Uit : forall x, In x (items a) -> UK (key x)).
+    { intros x Hx. apply Us. apply in_or_app. left. apply Inc, Hx. }
+    destruct (pf_step_cases K I key worse dom feq sim UK dom_trans dom_compat_l cap a ind Hnd M Uit Uind)
+      as [(E & Ev & _)|(ds & D & M1 & Hkeep & Hfree & E & Ev)].
+    - rewrite E, Ev. split; [exact Nd|discriminate].
+    - cbv zeta in *. set (a1 := prune_desc K I a ds) in *. rewrite E, Ev.
+      assert (N2 : NoDup (map uidf (items (ins a1 ind)))).
+      { apply (Permutation_NoDup (l := map uidf (ind :: items a1))).
+        - apply Permutation_map. symmetry. apply arch_insert_perm.
+        - simpl. constructor; [|apply prune_desc_nodup, Nd].
+          intros Hin. apply in_map_iff in Hin. destruct Hin as (x & Ex & Hx).
+          assert (x = ind).
+          { apply Ui; [|apply in_or_app; right; left; reflexivity|exact Ex].
+            apply in_or_app. left. apply Inc. eapply prune_desc_in, Hx. }
+          subst x. destruct (Hfree ind Hx) as (_ & _ & T).
+          rewrite feq_refl, sim_refl in T by exact Uind. discriminate. }
+      split; [apply final_nodup, N2|].
+      intros Ov. unfold over_capacity in Ov. apply andb_true_iff in Ov. destruct Ov as [Ov _].
+      apply Nat.ltb_lt in Ov. eapply Nat.lt_le_trans; [exact Ov|].
+      unfold size, distinct. rewrite <- (map_length uidf). apply NoDup_incl_length; [exact N2|].
+      intros u Hu. apply nodup_In. apply in_map_iff in Hu. destruct Hu as (x & <- & Hx). apply in_map.
+      apply arch_insert_in in Hx. destruct Hx as [->|Hx].
+      + apply in_or_app. right. left. reflexivity.
+      + apply in_or_app. left. apply Inc. eapply prune_desc_in, Hx.
+  Qed.
+
+  Lemma uid_inj_app_l s1 s2 : uid_inj (s1 ++ s2) -> uid_inj s1.
+  Proof. intros H s t Hs Ht. apply H; apply in_or_app; left; assumption. Qed.
+
+  (* when no more distinct individuals are shown than the capacity holds, nothing is evicted *)
+  Lemma few_no_evict inds : forall seen a,
+    useen (seen ++ inds) -> uid_inj (seen ++ inds) -> PInv seen a -> NoDup (map uidf (items a)) ->
+    distinct (seen ++ inds) <= cap ->
+    pf_no_evict key worse dom feq sim cap a inds = true.
+  Proof.
+    induction inds as [|x r IH]; intros seen a Us Ui H Nd Few; simpl; [reflexivity|].
+    replace (seen ++ x :: r) with ((seen ++ [x]) ++ r) in * by (rewrite <- app_assoc; reflexivity).
+    pose proof (useen_app_l K I key UK _ _ Us) as Us1. pose proof (uid_inj_app_l _ _ Ui) as Ui1.
+    destruct (uid_step_aux seen a x Us1 Ui1 H Nd) as [Nd1 Ev].
+    apply andb_true_iff. split.
+    - apply negb_true_iff. destruct (pevicts a x) eqn:E; [|reflexivity]. exfalso.
+      specialize (Ev eq_refl).
+      assert (distinct (seen ++ [x]) <= distinct ((seen ++ [x]) ++ r)) by (apply distinct_mono, incl_appl, incl_refl).
+      lia.
+    - apply (IH (seen ++ [x])); try assumption.
+      apply (PInv_step K I key worse dom feq sim UK dom_irrefl dom_trans dom_compat_l cap); assumption.
+  Qed.
+End FrontUids.
+
 (* ====================== the Pareto front of individuals ====================== *)
 (* hypotheses of C08 on what is shown to a Pareto archive: valid multi-objective fitness values,
    pairwise identical or clearly separated *)
@@ -732,6 +854,30 @@ Section FrontConcrete.
     - apply front_sorted, Inc1.
     - exact E.
   Qed.
+  Lemma opt_nat_eqb_refl o : opt_nat_eqb o o = true.
+  Proof. destruct o; simpl; [apply Nat.eqb_refl|reflexivity]. Qed.
+
+  Lemma sim_of_refl x : U (fitness x) -> sim_of sk x x = true.
+  Proof.
+    intros Hx. destruct sk; simpl.
+    - apply Nat.eqb_refl.
+    - unfold sim_same. rewrite (fr _ Hx), opt_nat_eqb_refl, Nat.eqb_refl. reflexivity.
+  Qed.
+
+  Lemma front_few_no_evict pops :
+    incl (concat pops) seen_all -> uid_inj indiv uid (concat pops) ->
+    distinct indiv uid (concat pops) <= cap ->
+    pf_no_evict fitness f_worse f_dom f_eq (sim_of sk) cap empty_arch (concat pops) = true.
+  Proof.
+    intros Inc Ui Few.
+    apply (few_no_evict fit indiv fitness f_worse f_dom f_eq (sim_of sk) uid U di dt fr cl sim_of_refl cap
+             (concat pops) [] empty_arch).
+    - apply useen_of, Inc.
+    - exact Ui.
+    - apply PInv_empty.
+    - constructor.
+    - exact Few.
+  Qed.
 End FrontConcrete.
 
 (* (4) members never dominate one another; keys mirror items; only individuals shown; the
@@ -781,6 +927,24 @@ Theorem pareto_exact_unbounded sk pops :
   (forall s, In s seen -> (forall s', In s' seen -> f_dom (fitness s') (fitness s) = false) ->
              exists m, In m (items a) /\ f_eq (fitness m) (fitness s) = true).
 Proof. intros H. apply pareto_exact; [exact H|apply no_evict_unbounded]. Qed.
+
+(* ... and for a bounded front as long as no more distinct individuals were shown than it holds
+   (the observable condition used by the oracle Keeper.pareto_clauses) *)
+Definition uid_injective (seen : list indiv) : Prop :=
+  forall s t, In s seen -> In t seen -> uid s = uid t -> s = t.
+
+Theorem pareto_exact_few sk cap pops :
+  shown_multi (concat pops) -> uid_injective (concat pops) ->
+  length (nodup Nat.eq_dec (map uid (concat pops))) <= cap ->
+  let seen := concat pops in
+  let a := pf_runs sk cap empty_arch pops in
+  (forall m, In m (items a) -> In m seen /\ forall s, In s seen -> f_dom (fitness s) (fitness m) = false) /\
+  (forall s, In s seen -> (forall s', In s' seen -> f_dom (fitness s') (fitness s) = false) ->
+             exists m, In m (items a) /\ f_eq (fitness m) (fitness s) = true).
+Proof.
+  intros H Ui Few. apply pareto_exact; [exact H|]. destruct H as [S M].
+  apply (front_few_no_evict sk cap (concat pops) S M pops (incl_refl _) Ui Few).
+Qed.
 
 (* the lexicographically best member never gets worse from one update to the next, whatever
    the capacity *)
